@@ -823,7 +823,7 @@ def impl_view(res):
             'by_month': {k: v['total'] for k, v in j['by_month'].items()}}
 
 
-def model_input(budget):
+def model_input(budget, with_settings=False):
     """Build the `pipeline` op from the budget using the implementation's own config loader and tokeniser
     (rows after tokenisation, as in C05); float()/strptime answers are filled by CPython on demand."""
     from tally import config_loader, parsers, merchant_engine as ME
@@ -869,10 +869,11 @@ def model_input(budget):
             if rb['legacy'] is None:
                 return None
         out = {'sources': sources, 'rulebook': rb, 'supp': [[k, exprs.val_json(v, True)] for k, v in supp.items()]}
-        try:
-            out['_from_settings'] = settings_case(cfgdir, config, rb, out['supp'])
-        except CC.Unmodelled:
-            out['_from_settings'] = None
+        if with_settings:
+            try:
+                out['_from_settings'] = settings_case(cfgdir, config, rb, out['supp'])
+            except CC.Unmodelled:
+                out['_from_settings'] = None
         return out
     finally:
         shutil.rmtree(d, ignore_errors=True)
@@ -1281,7 +1282,7 @@ def run(ctx):
     mcases, midx = [], []
     for i, b in enumerate(budgets):
         try:
-            mi = model_input(b)
+            mi = model_input(b, with_settings=True)
         except Exception as e:
             mi = None
             ctx.notes.setdefault('model_input_errors', []).append(f'{type(e).__name__}: {e}'[:120])
